@@ -1,5 +1,5 @@
 """Per-property wording for MANIFEST.json."""
-HOOK_COMMITS = []
+HOOK_COMMITS = ["d9be94b"]
 NOT_APPLICABLE = {}
 
 _PBT = "property-based testing with pgregory.net/rapid (sharded, shrunk replay files)"
@@ -29,6 +29,11 @@ TEXT = {
         technique=_PBT + " + complete sweep of all (prefix length, data length) pairs; oracle = independent BIP-173 reference encoder + Decode round trip",
         level="Generated (hrp, data) pairs incl. upper/mixed case, bytes outside 33..126 and non-ASCII runes: Encode must equal the reference string exactly when the pair fits and fail otherwise; all 87x57 length pairs x 4 contents enumerated completely on both sides of the 90-character limit.",
         note="Trusted: harness/ref/bech32.",
+    ),
+    "C06": dict(
+        technique="stateful (model-based) property-based testing with rapid: generated Absorb/Squeeze/Clone/Reset/rejected-call histories against 1..64 independent scalar Curl-P-81 sponges; invariant after every step on the decoded bit-sliced state; run under the default and the purego build",
+        level="Each generated history (up to 4 instances, batch sizes weighted to 1, 2, 63, 64, equal / nearly equal / all-different lanes, split absorbs, multi-block squeezes, clones, resets, rejected calls) is executed against the implementation and against one scalar reference sponge per lane; after every call the full 729-trit state of every lane and every squeezed block must agree, rejected calls must leave the state bit-identical. Sampled histories; the shrunk failing history is the replay file.",
+        note="Trusted: harness/ref/curl (validated on pinned vectors). The state is observed through the public CopyState.",
     ),
     "C07": dict(
         technique=_PBT + " + complete enumeration of message lengths 0..300; differential oracle = crypto/ed25519 byte for byte",
@@ -79,5 +84,10 @@ TEXT = {
         technique=_PBT + " + complete single-tryte substitution sweep per sampled address + native fuzzing; oracle = BIP-173 reference + (prefix, version, length) table + own migration codec (two-sided)",
         level="Constructor round trips for all prefixes and address kinds against an independent encoding; generated Bech32 strings with arbitrary version bytes / payload lengths / near-miss prefixes / hostile edits must be accepted exactly when the reference table says so and then re-encode to the lower-cased input; migration strings against an independent b1t6+BLAKE2b decoder incl. all 81x26 substitutions per sampled address.",
         note="Trusted: harness/ref/bech32, harness/ref/trit, x/crypto/blake2b.",
+    ),
+    "C20": dict(
+        technique=_PBT + " directly on the two permutation routines (hook) with guard-page fault injection; oracle = differential (assembly vs portable, bit for bit) + scalar truth-table Curl-P-81 per lane + lane-independence metamorphic relation; default and purego builds",
+        level="Generated bit-sliced states (valid 64-lane states, states with undefined pairs, arbitrary word patterns) are run through the build-selected transform and transformGeneric with all four buffers flush against PROT_NONE guard regions: outputs must agree bit for bit, equal 81 rounds of scalar Curl-P in every valid lane, never contain (0,0), keep lanes independent, and no access may fault or touch the canaries. States are sampled (2^93312 states cannot be enumerated); the memory-safety half covers every access of the routine as checked in because its addresses are input-independent.",
+        note="Trusted: harness/ref/curl; Linux mmap/mprotect + debug.SetPanicOnFault as the out-of-bounds detector (accesses farther than 1 MiB away landing in mapped memory would be missed). Hooks: VerifTransform / VerifTransformGeneric under build tag verif; without the hook only the public sponge-level sub-check runs.",
     ),
 }
